@@ -15,71 +15,83 @@ def times(log, prefix):
 
 
 def replay(which):
-    w = which.split('::')[-1]
+    nw = which.split('::')[-1]
+    if which.startswith('DerivedActorRef') and not nw.startswith('derived_'):
+        nw = 'derived_' + nw
+    w = nw[len('derived_'):] if nw.startswith('derived_') else nw
+    return _replay(which, w, nw)
+
+
+def _replay(which, w, nw):
     bad = []
     obs = {}
     p = 100
     if w == 'send_after':
-        log = run_native(w, p, 450)
+        log = run_native(nw, p, 450)
         obs['plain'] = log
         t = times(log, 'msg:')
         if len(t) != 1 or t[0] < p:
             bad.append('fires exactly once, not before the period: deliveries at %s' % t)
         if 'timer_output:ok' not in log:
             bad.append('output does not report the successful send')
-        log = run_native(w, p, 450, abort=50)
+        log = run_native(nw, p, 450, abort=50)
         obs['aborted'] = log
         if times(log, 'msg:'):
             bad.append('delivered although aborted before expiry')
-        log = run_native(w, p, 450, stop_target=20)
+        log = run_native(nw, p, 450, stop_target=20)
         obs['dead_target'] = log
         if times(log, 'msg:') or 'timer_output:err' not in log:
             bad.append('dead target: expected no delivery and an error through the handle')
-        log = run_native(w, 0, 50)
+        log = run_native(nw, 0, 50)
         obs['zero'] = log
         if len(times(log, 'msg:')) != 1:
             bad.append('zero period: expected exactly one delivery')
         # a positive period below the timer's millisecond granularity: not before the period has elapsed (the paused clock shows whole milliseconds)
-        log = run_native(w, 0, 50, period_us=900)
+        log = run_native(nw, 0, 50, period_us=900)
         obs['submillisecond'] = log
         t = times(log, 'msg:')
         if len(t) != 1 or t[0] < 1:
             bad.append('a 900 microsecond period: delivered at +%s ms, before the period elapsed' % t)
     elif w == 'send_interval':
-        log = run_native(w, p, 560)
+        log = run_native(nw, p, 560)
         obs['plain'] = log
         t = times(log, 'msg:')
         if t != [100, 200, 300, 400, 500]:
             bad.append('k-th message at k periods without drift: deliveries at %s' % t)
         # the executor is stalled from 150 to 280 (one deadline missed): the late message goes out at 280, the following ones are back on the grid
-        log = run_native(w, p, 560, stall_at=150, stall=130)
+        log = run_native(nw, p, 560, stall_at=150, stall=130)
         obs['stalled'] = log
         t = times(log, 'msg:')
         if any(tk > max((k + 1) * p, 280) for k, tk in enumerate(t)) or len(t) < 5:
             bad.append('k-th message at k periods without drift after a late poll: deliveries at %s' % t)
-        log = run_native(w, p, 560, stop_target=250)
+        log = run_native(nw, p, 560, stop_target=250)
         obs['target_stops'] = log
         t = times(log, 'msg:')
         if t != [100, 200] or 'timer_finished:1' not in log:
             bad.append('interval must end within one period of the target stopping: %s' % log)
-        log = run_native(w, p, 560, abort=250)
+        log = run_native(nw, p, 560, abort=250)
         obs['aborted'] = log
         if times(log, 'msg:') != [100, 200]:
             bad.append('abort must prevent further deliveries: %s' % times(log, 'msg:'))
     else:
-        log = run_native(w, 1500, 4000)
+        log = run_native(nw, 1500, 4000)
         obs['plain'] = log
         t = times(log, 'terminated:')
-        want = 'Exit_after_1500ms' if w == 'exit_after' else 'killed'
+        want = 'Exit_after_1500ms' if w.endswith('exit_after') else 'killed'
         if len(t) != 1 or t[0] < 1500 or not any(x.startswith('terminated:' + want + '@') for x in log):
             bad.append('stops the actor once, not before the period, with the documented reason: %s' % [x for x in log if x.startswith('terminated')])
-        log = run_native(w, 1500, 4000, abort=700)
+        log = run_native(nw, 1500, 4000, abort=700)
         obs['aborted'] = log
         if times(log, 'terminated:'):
             bad.append('aborted timer still stopped the actor')
-        log = run_native(w, 0, 50, period_us=900)
+        log = run_native(nw, 0, 50, period_us=900)
         obs['submillisecond'] = log
         t = times(log, 'terminated:')
         if len(t) != 1 or t[0] < 1:
             bad.append('a 900 microsecond period: the actor was stopped at +%s ms, before the period elapsed' % t)
     return {'replayed': bool(bad), 'detail': 'native %s scenarios: %s ; observations %s' % (w, bad, obs), 'replay': {'which': which}}
+
+
+def replay_alias(fn):
+    """the alias methods: ActorRef's are what the battery above calls anyway; DerivedActorRef's exit_after / kill_after through `get_derived`"""
+    return replay(fn)
